@@ -1294,11 +1294,24 @@ INSTALLERS["ins_stop"] = install_ins_stop
 # run() in the same process.
 def result_digest(fs):
     ns = fs.ns
-    nested = np.ascontiguousarray(np.asarray(fs.nested_samples))
+    nested = np.asarray(fs.nested_samples)
+    # the fields that make up a nested sample of this sampler; extra
+    # live-point fields that another sampler registered earlier in the same
+    # process (module-level registry) are not part of the result
+    core = list(ns.model.names) + ["logP", "logL", "it"]
+    if type(ns).__name__ == "ImportanceNestedSampler":
+        core += ["logW", "logQ", "logU"]
+    hs = hashlib.sha1()
+    for name in core:
+        if name in (nested.dtype.names or ()):
+            hs.update(name.encode())
+            hs.update(np.ascontiguousarray(nested[name]).tobytes())
+        else:
+            hs.update(("missing:" + name).encode())
     post_w = np.ascontiguousarray(np.asarray(
         ns.state.log_posterior_weights, dtype=float))
     return {
-        "nested": h(nested.tobytes()),
+        "nested": hs.hexdigest()[:16],
         "n": int(nested.size),
         "log_evidence": repr(float(fs.log_evidence)),
         "log_evidence_error": repr(float(fs.log_evidence_error)),
